@@ -942,5 +942,7 @@ def run(ctx):
     rule_no_expire(ctx)
     rule_retriable_table(ctx)
     rule_seq_wrap(ctx)
+    from .common import rule_instance_state
+    rule_instance_state(ctx, ("aiokafka.producer.",))
     rep.nd("the resulting broker log order / exactly-once count under arbitrary fault sequences (history property)")
     rep.nd("correctness of leader routing beyond `leader_for_partition(tp)` being the node the batch is filed under")
